@@ -664,12 +664,12 @@ def run(ctx):
     from .common import shared as _shared
 
     _shared(ctx, "C11.f", _corner_rules, why="the superposition canvas is spanned by origin and opposite_corner of every input image, and each image is placed by them")
-    rule_i(ctx)
-    rule_h(ctx)
-    rule_g(ctx)
-    rule_a(ctx)
-    rule_b(ctx)
-    rule_c(ctx)
-    rule_d(ctx)
-    rule_e(ctx)
-    rule_f(ctx)
+    ctx.guard(rule_i, ctx)
+    ctx.guard(rule_h, ctx)
+    ctx.guard(rule_g, ctx)
+    ctx.guard(rule_a, ctx)
+    ctx.guard(rule_b, ctx)
+    ctx.guard(rule_c, ctx)
+    ctx.guard(rule_d, ctx)
+    ctx.guard(rule_e, ctx)
+    ctx.guard(rule_f, ctx)
